@@ -118,6 +118,7 @@ var imports = map[string][]importSpec{
 		{"C01", `^C01\.c$`, kBothPaths, "a telegram waiting for the application must not be overwritten by the next datagram"},
 	},
 	"C20": {
+		{"C16", `^C16\.T5$`, `HostInfoFromAddress`, "the description request advertises the socket's own endpoint: address and port are those of the socket"},
 		{"C02", `^C02\.layout$`, `knxnet\.(SearchRes|DescriptionRes|DeviceInformationBlock|HostInfo|ServiceFamily)`, "the returned responses carry what the server sent"},
 		{"C02", `^C02\.(layout|dispatch)$`, `^knxnet\.UnpackHeader|^knxnet\.Unpack `, "every frame is received through the header decoder and the service dispatcher"},
 		{"C01", `^C01\.c$`, kDiscovery, "a returned response owns its bytes (the socket's receive buffer is reused for whatever arrives next)"},
